@@ -205,12 +205,14 @@ def r2(ctx):
               f"re-wrap is `{norm(rew[0].value) if rew else None}`")
     # the cache store comes after the resolution and stores `value`
     stores = [s for s in ast.walk(f.node) if isinstance(s, ast.Assign) and norm(s.targets[0]) == "self.factor_cache[factor.expr]"]
-    ok = len(stores) == 1 and "values=value" in norm(stores[0].value) and stores[0].lineno > b.lineno
+    from ..util import doc_order
+    pos = doc_order(f.node)
+    ok = len(stores) == 1 and "values=value" in norm(stores[0].value) and pos[id(stores[0])] > pos[id(b)]
     ctx.check(ok, "C08.R2", "only kind-resolved values are cached", f.where, ctx.construct(f, text="cache store"), "factor_cache must receive the re-wrapped value")
     wrap = [n for n in ast.walk(f.node) if isinstance(n, ast.stmt) and sym.pm_any([
         "if not isinstance(value, FactorValues): value = FactorValues(value)", "value = value if isinstance(value, FactorValues) else FactorValues(value)",
         "value = FactorValues(value) if not isinstance(value, FactorValues) else value"], n) is not None]
-    ok = len(wrap) == 1 and wrap[0].lineno < b.lineno
+    ok = len(wrap) == 1 and pos[id(wrap[0])] < pos[id(b)]
     ctx.check(ok, "C08.R2", "every evaluated value is wrapped (default kind UNKNOWN) before the kind test", f.where, ctx.construct(f, text="wrap"),
               "`if not isinstance(value, FactorValues): value = FactorValues(value)` must precede the kind resolution")
     g = P.func(MAT + "._encode_evaled_factor")
